@@ -31,7 +31,7 @@ ASSUMPTIONS = [
     "'immediate succession' = the second copy is delivered at the same clock reading as the first, before any other block of the instance runs",
     "observable behaviour = datagrams sent (time, destination address and port, decoded content with the three record sections merged and sorted) + ServiceListener / browser-handler callbacks per listener + lookup results + loop exception handler; the number of RecordUpdateListener invocations is compared too (an internal listener interface, but doubled record-manager rounds show there first)",
     "every delivery is a fresh bytes object (equal, never identical), as every recvfrom of a socket is",
-    "recorded findings D11 / D11b: deliveries in their input class are spared in the main comparison; in the run that spares nothing (made for every case) their second copy gets the local oracle (no callback, <= 1 unicast datagram and only to the querier's address and port, multicast only of the predicted records in no more datagrams than the first copy sent, cache and queues unchanged) and the run's difference from the reference is filed under the finding only if its FIRST departure has the shape the finding predicts (classify_full_difference); anything else is a fresh violation",
+    "recorded findings D11 / D11b: deliveries in their input class are spared in the main comparison; in the run that spares nothing (made for every case) their second copy gets the local oracle (no callback, <= 1 unicast datagram, only to the querier's address and port and carrying nothing the first copy's unicast answer did not carry, multicast only of the predicted records -- compared as they go on the wire: name, type, class, flush bit, TTL, rdata -- in no more datagrams than the first copy sent, cache unchanged, no answer taken out of the multicast queues, queues unchanged unless the finding is D11b) and the run's difference from the reference is filed under the finding only if its FIRST departure has the shape the finding predicts (classify_full_difference); anything else is a fresh violation",
     "identical random seeds = every random draw is a function of (seed, virtual time, index of the draw within that instant, interval)",
 ]
 
@@ -153,6 +153,19 @@ def gen_case(seed, idx, qu_ok):
         "dup_gap": rng.choice([0, 0, 0, 1, 500, 999]),
         "items": [dict(it, data=it["data"].hex(), src=list(it["src"])) for it in gen_history(rng, qu_ok)],
     }
+    # in half of the QU cases only the generated traffic is duplicated, not what the instance hears of itself while it starts: its
+    # own looped-back QU probes (+0/175/350 ms) and its browsers' first questions (QU, +20..120 ms after creation) are in D11's
+    # class / spared, so a history that contains them can never meet `NeutralAlong` (C16_history_qu_at_partial); one that starts after
+    # them can -- and when none of its arrivals is in a finding's class the main comparison *is* `dupAll h`
+    if qu_ok and rng.random() < 0.5 and case["start"] >= 400:
+        case["dup_after_start"] = True
+        case["lookup"] = False   # (a lookup's first question is QU and loops back too)
+    # the registered services also have a link-local IPv6 address when the socket is an IPv6 one: the instance hears its own AAAA
+    # record back *with the scope id of the receiving interface* (the cache keeps it under that identity), and "was it multicast
+    # within a quarter of its TTL" must still find it (fix e375581, `_get_unique_ignoring_scope`) -- the arrival history kept here
+    # ignores scope ids (`ident`), so a responder that does not re-multicasts an address the history calls recent: its QU queries
+    # fall outside every recorded class and their second copies are judged on their own
+    case["v6_service"] = bool(case["v6_tuple"] and C.rng_for(seed, "c16v6", idx, qu_ok).random() < 0.7)
     if case["dup_gap"]:
         case["lookup"] = False   # (a lookup's wake-ups tie with arrivals at round instants; the order of same-instant timers is unspecified)
     if qu_ok and rng.random() < 0.08:
@@ -251,9 +264,11 @@ def features(data):
 
 
 def rkey(r):
-    """identity of a record without TTL / flush bit / creation time"""
+    """a record **as it goes on the wire**: name, type, class, flush bit, TTL, rdata -- everything but the creation time.  (What a
+    recorded finding predicts for a second copy is the first copy's records *again*: the same TTLs and flush bits, not just the same
+    identities -- a re-multicast with a tenth of the TTL is not "the same answer twice".)"""
     tok = (C.rec_line(r, created=0) if not isinstance(r, str) else r).split()
-    return " ".join(tok[:4] + tok[7:])
+    return " ".join(tok[:6] + tok[7:])
 
 
 def ident(r):
@@ -299,6 +314,7 @@ def shadow_apply(shadow, data, now, own=None):
     answers = m.answers()
     here = {ident(r) for r in answers}
     uniq, removes = set(), []
+    orig, positive = {}, {}     # what the history said of a record before this datagram; records the datagram carries with a positive TTL
     for r in answers:
         ttl = int(r.ttl)
         if ttl and r.type == 12 and ttl < 1125:
@@ -306,8 +322,10 @@ def shadow_apply(shadow, data, now, own=None):
         if r.unique:
             uniq.add((r.name.lower(), r.type, r.class_))
         k = ident(r)
+        orig.setdefault(k, shadow.get(k))
         if ttl > 0:
             shadow[k] = (now, ttl)
+            positive[k] = ttl
         elif k in shadow and not (own is not None and k in own):
             # (`own`: the datagram is the instance's own looped-back multicast and the record is one a registered service of
             # the instance still stands for: a goodbye for it is not a withdrawal the instance may rely on -- its last multicast
@@ -327,6 +345,17 @@ def shadow_apply(shadow, data, now, own=None):
             else:
                 del shadow[k]     # purged long ago: nothing to flush
     for k in removes:
+        if k in positive:
+            # the same datagram withdraws the record *and* carries it with a positive TTL.  The record manager removes what it withdraws
+            # last -- if the cache held the record when the datagram arrived; a record that had run out and been purged is not
+            # withdrawn (the goodbye finds nothing), the positive copy is added and stays
+            old = orig.get(k)
+            expired_for = None if old is None else now - (old[0] + 1000 * old[1])
+            if old is None or expired_for > CLEANUP_MS:
+                continue
+            if expired_for >= 0:
+                shadow[k] = (now, positive[k], "unknown")    # run out, perhaps not purged yet: the history cannot tell
+                continue
         shadow.pop(k, None)
 
 
@@ -339,7 +368,7 @@ def shadow_recent(shadow, rec, now):
     if v is None:
         return False
     if len(v) > 2 and v[0] + 1000 * v[1] > now - CLEANUP_MS:
-        return None
+        return None     # (marked "unknown" in `shadow_apply`: until it has run out and must have been purged)
     return v[0] + 250 * v[1] > now
 
 
@@ -375,8 +404,13 @@ def qu_signature(zc, data, port, now, shadow):
                     # "not multicast within a quarter of its TTL" is decided from the arrival history kept by the harness,
                     # *not* from the implementation's cache: a defect that makes the cache forget (wrong TTL on refresh, a
                     # record stored under another identity) must not move the delivery into the recorded finding's class
-                    e = zc.cache.async_get_unique(rec)
-                    impl_recent = e is not None and e.is_recent(now)
+                    # (the cache's answer; for an IPv6 address read without the scope id an IPv6 socket adds to the heard record --
+                    # an IPv4 address has no scope: it must be in the cache under its own identity)
+                    if rec.type == 28:
+                        impl_recent = any(ident(e) == ident(rec) and e.is_recent(now) for e in zc.cache.async_all_by_details(rec.name, rec.type, rec.class_))
+                    else:
+                        e = zc.cache.async_get_unique(rec)
+                        impl_recent = e is not None and e.is_recent(now)
                     mine = shadow_recent(shadow, rec, now)
                     if mine is None:
                         mine = impl_recent      # (either answer is right there: take the implementation's)
@@ -443,6 +477,7 @@ def simulate(case, dupmask, skip_d11=False):
                                                   ServiceStateChange.Updated: "upd"}[state_change], name])
 
     cur = {"down": None, "draws": None}
+    dyn = {"dup_after": 10 ** 15 if case.get("dup_after_start") else case.get("dup_after", 0)}
 
     def patch(cls, name, fn):
         orig = getattr(cls, name)
@@ -484,7 +519,14 @@ def simulate(case, dupmask, skip_d11=False):
                 al = []
                 for r in recs:
                     i = ids.setdefault(r, len(ids))
-                    e = self.cache.async_get_unique(r)
+                    # the cache entry of this record: the one heard last among those that are this record but for the scope id an
+                    # IPv6 socket adds to heard addresses (read here, from the whole list -- not through the responder's own look-up)
+                    # (IPv6 addresses only: an IPv4 address has no scope and is looked up as it is)
+                    if r.type == 28:
+                        same = [x for x in self.cache.async_all_by_details(r.name, r.type, r.class_) if ident(x) == ident(r)]
+                        e = max(same, key=lambda x: x.created) if same else None
+                    else:
+                        e = self.cache.async_get_unique(r)
                     al.append([i, None if e is None else [int(e.created) - vsim.T0, int(e.ttl)]])
                 strats.append([unique, al])
             q0 = msgs[0]._questions
@@ -582,11 +624,11 @@ def simulate(case, dupmask, skip_d11=False):
                 # the ones matching a finding, and get the local oracle on their second copy in the run that spares nothing.
                 own_qu = sg["qu"] and src[0] == "10.0.0.1" and not sg["tc"]
                 d11 = (known_sig(sg) is not None and not sg["tc"]) or own_qu
-                if d11:
+                if d11 and sim.now() >= dyn["dup_after"]:   # (outside the duplicated part of the history nothing is spared: nothing is duplicated)
                     obs["d11"].append(i)
                     obs["d11sig"][i] = known_sig(sg) or OWN_QU
                 twice = ((dupmask == "all" or (isinstance(dupmask, (set, frozenset)) and i in dupmask)) and not (skip_d11 and d11)
-                         and sim.now() >= case.get("dup_after", 0))
+                         and sim.now() >= dyn["dup_after"])
                 if twice:
                     obs["sigs"][i] = dict(sg, t=sim.now(), data=data.hex(), src=list(src))
             n_s, n_c = len(obs["sends"]), len(obs["callbacks"])
@@ -614,7 +656,10 @@ def simulate(case, dupmask, skip_d11=False):
                 if sg["qu"]:
                     after = downstream_digest(zc)
                     second = {"sends": obs["sends"][n_s2:], "callbacks": obs["callbacks"][n_c2:]}
+                    q_before = {k_ for q_ in before["queues"] for g_ in q_ for k_ in g_[2]}
+                    q_after = {k_ for q_ in after["queues"] for g_ in q_ for k_ in g_[2]}
                     obs["second_copies"].append({"key": i, "sig": known_sig(sg), "tc": sg["tc"], "qm": sg["qm_answers"], "remulticast": sorted(set(sg["remulticast"])),
+                                                 "queued_lost": sorted(q_before - q_after),
                                                  "src": list(src), "first_alone": not deferred_before,
                                                  "first": first, "second": second,
                                                  "cache_same": before["cache"] == after["cache"], "queues_same": before["queues"] == after["queues"]})
@@ -634,7 +679,8 @@ def simulate(case, dupmask, skip_d11=False):
                 pass
 
         ttl_kw = {} if not case.get("other_ttl") else {"other_ttl": case["other_ttl"]}
-        infos = [ServiceInfo(TA, "s%d.%s" % (i + 1, TA), 80 + i, addresses=[socket.inet_aton("10.0.0.1")], server=case.get("server", "ha.local."),
+        infos = [ServiceInfo(TA, "s%d.%s" % (i + 1, TA), 80 + i, addresses=[socket.inet_aton("10.0.0.1")] + ([socket.inet_pton(socket.AF_INET6, "fe80::1")] if case.get("v6_service") else []),
+                             server=case.get("server", "ha.local."),
                              properties={"k": "v%d" % i}, **ttl_kw) for i in range(case["n_services"])]
         for info in infos:
             t = await zc.async_register_service(info)
@@ -645,6 +691,8 @@ def simulate(case, dupmask, skip_d11=False):
         zc.async_add_listener(RUL(), None)
         browsers = [AsyncServiceBrowser(zc, [TB], listener=L("l")), AsyncServiceBrowser(zc, [TB, TA] if case["browse_own"] else [TB], handlers=[handler])]
         await sim.sleep_ms(case["start"])
+        if case.get("dup_after_start"):
+            dyn["dup_after"] = sim.now()
         lookup = None
         if case["lookup"]:
             async def do_lookup():
@@ -846,7 +894,7 @@ def classify(case, ref, skip_d11):
     i, one = culprit
     sg = dict(one["sigs"].get(i, {}), delivery=i)
     f = features(bytes.fromhex(sg["data"])) if "data" in sg else {}
-    if known_sig(sg) is not None:
+    if known_sig(sg) is not None and not sg.get("tc"):
         return known_sig(sg), sg
     if sg.get("qu") and sg.get("src", [""])[0] == "10.0.0.1":
         return OWN_QU, sg
@@ -915,8 +963,43 @@ def classify_full_difference(case, ref, full):
         predicted = set()
         for sg in near:
             predicted |= set(sg["remulticast"])
-        if near and ((kind == "extra" and recs_of(ev) <= predicted) or (kind == "missing" and recs_of(ev) & predicted)):
+        if near and kind == "extra" and recs_of(ev) <= predicted:
             return D11B_SIG, {"first_difference": [kind, ev], "culprit": near[-1]}
+        if near and kind == "extra" and recs_of(ev) & predicted:
+            # the doubled answers went into the aggregation queue and were *merged with a group already waiting there* (the answers
+            # to another query -- e.g. a truncated one of the same source answered together with the first copy): the datagram the
+            # reference sends at this instant goes out with the predicted records added.  Everything in it that the finding does
+            # not predict must be in the reference's multicast datagram(s) of this very instant.
+            same_instant = set()
+            for x in ref["sends"]:
+                if not is_unicast(x) and x[0] == t0:
+                    same_instant |= recs_of(x)
+            if same_instant and recs_of(ev) - predicted <= same_instant:
+                return D11B_SIG, {"first_difference": [kind, ev], "culprit": near[-1], "merged_with_reference_datagram_at": t0}
+        if near and kind == "missing" and recs_of(ev) & predicted:
+            # delayed, not lost: every record of the missing datagram goes out later, within the span of the doubled group
+            later = set()
+            for x in full["sends"]:
+                if not is_unicast(x) and t0 < x[0] <= t0 + span + 1000:
+                    later |= recs_of(x)
+            if recs_of(ev) <= later:
+                return D11B_SIG, {"first_difference": [kind, ev], "culprit": near[-1]}
+            return "C16:qu-duplicate-loses-queued-multicast-answer", {"first_difference": [kind, ev], "never_sent": sorted(recs_of(ev) - later)[:4]}
+        # the doubled queueing of a D11b query draws one more random delay; the draws of this harness are keyed by their index within
+        # the instant, so answers queued *at that same instant* for a later packet get another jitter (a real network gives no such
+        # guarantee either): the reference's datagram goes out unchanged, up to 100 ms (the width of the 20-120 ms jitter) earlier or
+        # later, both instants inside the jitter window (or that window + 1 s, the last-second protection) counted from the D11b query
+        md = case.get("maxdelay", 0)
+
+        def in_jitter(dt):
+            return 20 <= dt <= 120 + md or 1020 <= dt <= 1120 + md
+
+        other = ref["sends"] if kind == "extra" else full["sends"]
+        for x in other:
+            if x[1:] == ev[1:] and x[0] != t0 and abs(x[0] - t0) <= 100:
+                for sg in near:
+                    if in_jitter(t0 - sg["t"]) and in_jitter(x[0] - sg["t"]):
+                        return D11B_SIG, {"first_difference": [kind, ev], "culprit": sg, "same_datagram_with_another_jitter_at": x[0]}
     if self_extra:
         return OWN_QU, {"first_difference": [kind, ev]}
     return "C16:qu-duplicate-difference-not-predicted-by-a-finding", {"first_difference": [kind, ev],
@@ -925,8 +1008,9 @@ def classify_full_difference(case, ref, full):
 
 def second_copy_findings(obs):
     """the property's exception, checked where it applies: on the second copy of every duplicated QU query (those matching
-    a recorded finding included).  Allowed: at most one unicast datagram, to the querier, with nothing the first copy did not
-    send; no callback; downstream state as the first copy left it.  Under a recorded finding, additionally: multicast of
+    a recorded finding included).  Allowed: at most one unicast datagram, to the querier's address and port,
+    carrying nothing the first copy's unicast answer did not carry (same records, TTLs, flush bits -- when the first copy was answered
+    alone); no callback; cache as the first copy left it, no answer taken out of the queues.  Under a recorded finding, additionally: multicast of
     exactly the records the finding predicts (D11/D11b) and, for D11b, the answer queues may differ."""
     bad = []
     for sc in obs["second_copies"]:
@@ -943,6 +1027,20 @@ def second_copy_findings(obs):
         where = {"delivery": sc["key"], "finding": sc["sig"]}
         if sc["second"]["callbacks"]:
             bad.append(("C16:second-copy-fires-callbacks", "the second copy of a QU query fired %d callbacks" % len(sc["second"]["callbacks"]), where))
+        # "answered by unicast twice": the second answer is the first again -- when the first copy was answered alone (with truncated
+        # packets deferred for the address the first answer also covers their questions and known answers) it carries nothing the
+        # first did not: same records, same TTLs, same flush bits
+        second_uni = set()
+        for x in uni:
+            if len(x[3]) > 2:
+                second_uni |= set(x[3][2])
+        if sc.get("first_alone") and first_uni and second_uni - first_uni:
+            bad.append(("C16:second-copy-unicast-answer-differs", "the second copy of a QU query was answered by unicast with %d records the first answer did not carry (e.g. %s)"
+                        % (len(second_uni - first_uni), sorted(second_uni - first_uni)[0][:80]), where))
+        # whatever the second copy does to the answer queues, it does not take answers *out* of them (a recorded finding delays a queued
+        # multicast, it never cancels one)
+        if sc.get("queued_lost"):
+            bad.append(("C16:second-copy-removes-queued-answers", "the second copy of a QU query removed %d answers waiting in the multicast queues" % len(sc["queued_lost"]), where))
         n_first_uni = sum(1 for x in sc["first"]["sends"] if is_unicast(x))
         if len(uni) > max(1, n_first_uni):
             bad.append(("C16:second-copy-unicast-not-a-repeat", "the second copy of a QU query was answered by %d unicast datagrams (the first by %d)" % (len(uni), n_first_uni), where))
@@ -1001,6 +1099,11 @@ def run_case(res, case, ctx, lines_acc):
     for sig_, what_, where_ in second_copy_findings(dup):
         violate_limited(res, sig_, what_, {"case": case, "where": where_})
     res.count("second-copies-of-QU-queries-checked", len(dup["second_copies"]))
+    if case.get("dup_after_start") and not dup["d11"] and dup["second_copies"] and diff is None and not second_copy_findings(dup):
+        # every QU arrival of the duplicated part of the history was observed neutral (cache and queues unchanged, unicast only) and
+        # nothing was spared: an instance of C16_history_qu_at_partial's hypothesis, conclusion checked by the main comparison and its
+        # blocks replayed through c16run
+        res.count("histories-with-QU-queries-meeting-NeutralAlong")
     for mm in dup["recency_mismatch"][:1]:
         res.disagree("c16recent", {"case": case, "delivery": mm}, "the cache's quarter-TTL test on %s" % mm["records"][:2],
                      "the arrival history kept by the harness says the opposite")
